@@ -469,6 +469,7 @@ pub fn gen_pipe_case(rng: &mut Rng, p: &Profile) -> PipeCase {
             eintr_pm: *rng.pick(&[0u16, 50, 300]),
             seed: rng.next_u64(),
             hard: None,
+            hard_kind: 0,
         }
     } else {
         ReadFaults::default()
